@@ -1020,10 +1020,22 @@ class Trellis:
         # The node itself is worth keeping: it is still recyclable, just not skippable.
         # This must happen after the loop has settled, so it does not fire for creators
         # that a later iteration deletes anyway.
+        #
+        # The same holds for the creators further up in the detached subtree:
+        # their own list of products is still complete,
+        # but recycling one of them without running it again
+        # re-attaches the incomplete node below it as it is,
+        # and nothing would ever declare the lost product again.
+        visited = set()
         for creator_i in creator_is:
-            row = self.db.execute(
-                "SELECT kind, label FROM node WHERE i = ?", (creator_i,)
-            ).fetchone()
-            if row is not None:
-                kind, label = row
-                self.node_from_row(creator_i, kind, label).after_lost_product()
+            i = creator_i
+            while i is not None and i not in visited:
+                visited.add(i)
+                row = self.db.execute(
+                    "SELECT kind, label, creator FROM node WHERE i = ?", (i,)
+                ).fetchone()
+                if row is None:
+                    break
+                kind, label, i_next = row
+                self.node_from_row(i, kind, label).after_lost_product()
+                i = i_next
